@@ -46,6 +46,9 @@ type RawObs struct {
 	Err      int
 	Panic    string
 	ThunkNil bool
+	Pre      []RawCall
+	Ret2     []int
+	Early    int
 	Out      RawSl
 	InB, InA RawSl
 	LB, LA   []RawInner
